@@ -576,6 +576,20 @@ class CallMixin:
                 st.new_epoch_at_least(st.alloc)
                 continue
             node = ast.parse(m, mode="eval").body
+            if isinstance(node, ast.Attribute) and isinstance(node.value, ast.Attribute) and isinstance(node.value.value, ast.Name) \
+                    and node.value.value.id in env:
+                # param.field.sub : a cell of the object held in a field of the parameter (e.g. self.conn.committed)
+                obj = env[node.value.value.id]
+                cls = obj.ty.args[0]
+                fty = self.field_type(cls, node.value.attr)
+                if fty is None or fty.name != "Obj":
+                    raise EngineError(f"modifies {m}: {node.value.attr} is not an object field")
+                inner = st.read(f"{cls}.{node.value.attr}", I, obj.t)
+                key = f"{fty.args[0]}.{node.attr}"
+                arr = st.heap.get(key, self.init_heap.get(key))
+                srt = arr.sort().range() if arr is not None else I
+                st.write(key, srt, inner, fresh("hv_" + node.attr, srt))
+                continue
             if isinstance(node, ast.Attribute) and isinstance(node.value, ast.Name) and node.value.id in env:
                 obj = env[node.value.id]
                 if obj.ty.name == "Opt":
@@ -742,6 +756,16 @@ class CallMixin:
                 if kind == "all":
                     return Val(BOOL, self.mk_forall([i], z3.Implies(rng, body)))
                 return Val(BOOL, z3.Exists([i], z3.And(rng, body)))
+            if isinstance(it, ast.Call) and isinstance(it.func, ast.Name) and it.func.id in ("event_ids", "bucket_rowids", "integers"):
+                # every integer (row ids of a table; liveness is stated in the body)
+                r = fresh("q_" + g.target.id, I)
+                st.env[g.target.id] = Val(INT, r)
+                st.ghost = dict(st.ghost)
+                st.ghost["__qvars__"] = qv + [g.target.id]
+                body = self._qbody(gen, g, st, kind)
+                if kind == "all":
+                    return Val(BOOL, z3.ForAll([r], body))
+                return Val(BOOL, z3.Exists([r], body))
             if isinstance(it, ast.Call) and isinstance(it.func, ast.Name) and it.func.id == "dicts":
                 # every allocated dict object (specification only)
                 r = fresh("q_d", I)
